@@ -2,11 +2,13 @@ import EyeballVerif.Driver.Text
 import EyeballVerif.Driver.Vec
 import EyeballVerif.Driver.Adp
 import EyeballVerif.Driver.Obs
+import EyeballVerif.Driver.Conc
 open EV
 
 structure DState where
   adp : AdpSt := {}
   obs : ObsDrv := {}
+  conc : CS := CS.init true 0 1 0 []
 
 def stepLine (st : DState) (line : String) : DState × String :=
   let toks := (line.trimAscii.toString.splitOn " ").filter (· ≠ "")
@@ -20,6 +22,9 @@ def stepLine (st : DState) (line : String) : DState × String :=
     | some f, some d, some l => (st, (d.map f).show ++ " " ++ showOptList ((d.map f).apply (l.map f)))
     | _, _, _ => (st, "bad-op")
   | _ =>
+    match concStep st.conc toks with
+    | some (conc, out) => ({ st with conc }, out)
+    | none =>
     match obsStep st.obs toks with
     | some (obs, out) => ({ st with obs }, out)
     | none =>
